@@ -26,21 +26,26 @@ def _dna_edge_iterator(meta_molecule, source):
     directed graphs.
     """
     first_node = source
-    count = 0
     while True:
-        neighbors = meta_molecule.neighbors(source)
         src_resid = meta_molecule.nodes[source]["resid"]
-        for next_node in neighbors:
+        # the order in which the neighbours are stored carries no meaning:
+        # the residue with the previous id comes first, a ring is only
+        # closed when there is none
+        previous = None
+        closing = None
+        for next_node in meta_molecule.neighbors(source):
             next_resid = meta_molecule.nodes[next_node]["resid"]
-            diff = src_resid - next_resid
-            if diff == 1 :
-                yield (source, next_node)
-                source = next_node
-                break
+            if src_resid - next_resid == 1:
+                previous = next_node
+            elif next_resid > src_resid and next_node == first_node:
+                closing = next_node
 
-            if next_resid > src_resid and next_node == first_node:
-                yield (source, next_node)
-                return
+        if previous is not None:
+            yield (source, previous)
+            source = previous
+        elif closing is not None:
+            yield (source, closing)
+            return
         else:
             return
 
@@ -65,12 +70,15 @@ def complement_dsDNA(meta_molecule):
         when the resname does not match any of the know base-pair
         names an error is raised.
     """
-    last_node = list(meta_molecule.nodes)[-1]
+    # the strand is walked from the residue with the highest residue id;
+    # node keys need not follow the residue ids, new nodes get keys above
+    # all existing ones
+    last_node = max(meta_molecule.nodes, key=lambda node: meta_molecule.nodes[node]["resid"])
+    total = max(meta_molecule.nodes) + 1
     resname = BASE_LIBRARY[meta_molecule.nodes[last_node]["resname"]]
-    meta_molecule.add_monomer(last_node+1, resname, [])
+    meta_molecule.add_monomer(total, resname, [])
 
-    correspondance = {last_node: last_node+1}
-    total = last_node+1
+    correspondance = {last_node: total}
 
     pbar = tqdm(total=len(meta_molecule.nodes))
     for prev_node, next_node in _dna_edge_iterator(meta_molecule, source=last_node):
